@@ -364,6 +364,63 @@ impl C11 {
             });
             return;
         }
+        // The same holds for requests made through the SolverCache by the provider itself
+        // (sort_candidates implementations inspect candidates through it): asking for the
+        // sorted candidates of a union must put the candidate requests of all its member
+        // packages in flight together, not one after another.
+        for (ui, un) in c.u.unions.iter().enumerate().take(3) {
+            let mut names: Vec<u32> = vec![];
+            for &m in &un.members {
+                let n = c.u.packages[c.u.vsets[m].pkg].name_id;
+                if !names.contains(&n) {
+                    names.push(n);
+                }
+            }
+            if names.len() < 2 {
+                continue;
+            }
+            let sched = crate::sched::Sched::new(Policy::Fifo, vec![]);
+            let provider = crate::provider::TableProvider::new(c.u.clone()).with_sched(sched.clone());
+            let cache = resolvo::SolverCache::new(provider);
+            let want = names.len();
+            let seen = std::rc::Rc::new(std::cell::Cell::new(usize::MAX));
+            let seen2 = seen.clone();
+            *sched.observer.borrow_mut() = Some(Box::new(move |q: &Quiescent| -> Result<(), String> {
+                if q.index == 0 {
+                    seen2.set(q.outstanding.iter().filter(|(k, _)| *k == ReqKind::Candidates).count());
+                }
+                Ok(())
+            }));
+            let rt = crate::sched::SchedRuntime { sched: sched.clone() };
+            let req = resolvo::Requirement::Union(resolvo::VersionSetUnionId(un.id));
+            let r = guarded(|| {
+                use resolvo::runtime::AsyncRuntime;
+                rt.block_on(cache.get_or_cache_sorted_candidates(req)).map(|v| v.len()).map_err(|_| ())
+            });
+            rep.evaluations += 1;
+            match r {
+                Err(p) => {
+                    rep.failure = Some(Failure {
+                        signature: if p.message.starts_with(crate::sched::DEADLOCK_MSG) { "deadlock".into() } else { p.signature() },
+                        detail: format!("SolverCache::get_or_cache_sorted_candidates(union {ui}): {}", p.message),
+                    });
+                    return;
+                }
+                Ok(_) => {
+                    rep.labels.push("cache-union-probe");
+                    if seen.get() != usize::MAX && seen.get() != want {
+                        rep.failure = Some(Failure {
+                            signature: "C11:union-members-requested-sequentially".into(),
+                            detail: format!(
+                                "SolverCache::get_or_cache_sorted_candidates on a union over {want} distinct packages had {} get_candidates request(s) in flight at its first quiescent point",
+                                seen.get()
+                            ),
+                        });
+                        return;
+                    }
+                }
+            }
+        }
         if k_root >= 3 {
             rep.labels.push("root-fanout>=3");
         }
